@@ -2,8 +2,10 @@
 import cpu_props
 
 ID = 'C13'
-LEAN_MODULES = []
-NAMESPACES = []
+LEAN_MODULES = ['Py65.Props.C13']
+NAMESPACES = ['Py65.Props.C13']
+TRUSTED = ['Spec.Cpu / Spec.Cycles (hand-written programming model and documented cycle table, the oracle)', 'translator harness/py2lean.py, validated on every run by exact-state comparison with the real device', 'Py.land/lor/lxor definitions (characterised by theorems, differentially tested)']
+ASSUMPTIONS = ['the per-opcode assembly (delta cycles = Spec.stepCycles for every opcode) is not one theorem; it is carried by the differential on every run', 'operation helpers leaving excycles alone is proved for a subset (op_keeps_excycles_partial)', 'KNOWN FINDING 65C02 BRA: excluded in cycles_table_65c02_partial, witnessed by bra_deviation']
 LEVEL = 'proof'
 RULE = ('every declared opcode x boundary-biased states (registers, operands, pointers and PC aimed at page/wrap boundaries); distinct = distinct (opcode, register-class, pc-quadrant, touched-cell-count) signatures of executions that ran')
 
